@@ -477,3 +477,20 @@ func (w *World) Write(dir string, r *rng.R) error {
 	lay := rng.Pick(r, []string{LayoutOneFile, LayoutOneFile, LayoutRandom, LayoutPerDoc, LayoutNested})
 	return WriteDocs(dir, w.Docs(), lay, r)
 }
+
+// WorkloadDocs renders the documents of one workload (one per pod for bare / owned pods).
+func WorkloadDocs(w *Workload) []Doc { return workloadDocs(w) }
+
+// NamespaceDoc renders a Namespace object.
+func NamespaceDoc(ns *Namespace) Doc {
+	return Doc{Kind: "Namespace", Name: ns.Name,
+		YAML: "apiVersion: v1\nkind: Namespace\nmetadata:\n  name: " + q(ns.Name) + "\n  labels: " + mapYAML(ns.Labels) + "\n"}
+}
+
+func NetPolDoc(n *NetPol) Doc {
+	return Doc{Kind: "NetworkPolicy", Ns: n.Ns, Name: n.Name, YAML: NetPolYAML(n)}
+}
+func ANPDoc(a *ANP) Doc { return Doc{Kind: "AdminNetworkPolicy", Name: a.Name, YAML: ANPYAML(a)} }
+func BANPDoc(b *BANP) Doc {
+	return Doc{Kind: "BaselineAdminNetworkPolicy", Name: b.Name, YAML: BANPYAML(b)}
+}
